@@ -333,6 +333,54 @@ Proof.
   - discriminate.
 Qed.
 
+(* Whatever else the request carries: when a token was found, the forwarded Authorization header is
+   Bearer <outcome for the first token>, the forwarded query has no api_token, and the form body and
+   the cookie are the incoming ones untouched.  So an unsalted secret can only leave through the form
+   body or the cookie -- this is the trigger predicate of finding F6b. *)
+Theorem legacy_leak_confined db r remote r' t0 rest :
+  legacy db r remote = LFwd r' -> load_tokens r = t0 :: rest ->
+  (exists out, l_auth r' = ABearer out /\
+     (salt_token t0 remote = Salted out \/
+      ((salt_token t0 remote = ErrObsolete \/ salt_token t0 remote = ErrFormat) /\
+       (out = t0 \/ exists user auth_uuid secret, db t0 = DbFound user auth_uuid secret /\
+                                                 salt_token ("v2/" ++ auth_uuid ++ "/" ++ secret) remote = Salted out)))) /\
+  values "api_token" (l_query r') = [] /\ l_form r' = l_form r /\ l_cookie r' = l_cookie r.
+Proof.
+  intros Hl Ht. unfold legacy, legacy_k in Hl. rewrite Ht in Hl. fold (salt_token t0 remote) in Hl.
+  destruct (salt_token t0 remote) as [t| | |] eqn:E.
+  - injection Hl as <-. cbn [l_auth l_query l_form l_cookie]. rewrite values_without.
+    split; [exists t; split; [reflexivity|left; reflexivity]|auto].
+  - destruct (db t0) as [| |user au sec] eqn:Ed; [discriminate| |].
+    + injection Hl as <-. cbn [l_auth l_query l_form l_cookie]. rewrite values_without.
+      split; [exists t0; split; [reflexivity|right; auto]|auto].
+    + destruct (has_prefix remote user).
+      * injection Hl as <-. cbn [l_auth l_query l_form l_cookie]. rewrite values_without.
+        split; [exists t0; split; [reflexivity|right; auto]|auto].
+      * fold (salt_token ("v2/" ++ au ++ "/" ++ sec) remote) in Hl.
+        destruct (salt_token ("v2/" ++ au ++ "/" ++ sec) remote) as [t| | |] eqn:E2; try discriminate.
+        injection Hl as <-. cbn [l_auth l_query l_form l_cookie]. rewrite values_without.
+        split; [exists t; split; [reflexivity|right; split; [auto|right; exists user, au, sec; auto]]|auto].
+  - destruct (db t0) as [| |user au sec] eqn:Ed; [discriminate| |].
+    + injection Hl as <-. cbn [l_auth l_query l_form l_cookie]. rewrite values_without.
+      split; [exists t0; split; [reflexivity|right; auto]|auto].
+    + destruct (has_prefix remote user).
+      * injection Hl as <-. cbn [l_auth l_query l_form l_cookie]. rewrite values_without.
+        split; [exists t0; split; [reflexivity|right; auto]|auto].
+      * fold (salt_token ("v2/" ++ au ++ "/" ++ sec) remote) in Hl.
+        destruct (salt_token ("v2/" ++ au ++ "/" ++ sec) remote) as [t| | |] eqn:E2; try discriminate.
+        injection Hl as <-. cbn [l_auth l_query l_form l_cookie]. rewrite values_without.
+        split; [exists t; split; [reflexivity|right; split; [auto|right; exists user, au, sec; auto]]|auto].
+  - discriminate.
+Qed.
+
+(* and when no token is found in header, query or cookie, the request goes out as it came (the form
+   branch is dead): this is the "token only in the form body" half of F6b *)
+Theorem legacy_no_token_found db r remote :
+  load_tokens r = [] -> l_ctype r <> "application/x-www-form-encoded" -> legacy db r remote = LFwd r.
+Proof.
+  intros Ht Hc. unfold legacy, legacy_k. rewrite Ht. destruct (String.eqb_spec (l_ctype r) "application/x-www-form-encoded"); [contradiction|reflexivity].
+Qed.
+
 (* the hypotheses of the partial theorems are satisfiable *)
 Example legacy_partial_example :
   let r := {| l_auth := ABearer "v2/aaaaa-gj3su-000000000000000/thisisthesecretpartofthetokenwhichislongerthan40chars";
